@@ -173,40 +173,42 @@ theorem escape_head_ne_gt (l t : List Nat) : escape l ≠ 0x3E :: t := by
         repeat' split
         all_goals simp_all
 
-/-- … so its output never contains `]>` where the first character is a piece of its own -/
+/-- … so its output never starts with `]>` -/
+theorem escape_ne_cdata_end (l t : List Nat) : escape l ≠ 0x5D :: 0x3E :: t := by
+  intro hl
+  cases l with
+  | nil => simp [escape, escapeWith] at hl
+  | cons c rest =>
+    unfold escape at hl
+    rw [escapeWith, piece] at hl
+    by_cases hc : isCtl c = true
+    · simp [hc, xEsc] at hl
+    · have hc' : isCtl c = false := by simpa using hc
+      by_cases hp : (c == 0x5F && startsPatFix (c :: rest)) = true
+      · simp [hc', hp, escUnderscore] at hl
+      · have hp' := Bool.eq_false_iff.mpr hp
+        simp only [hc', hp', Bool.false_eq_true, if_false] at hl
+        unfold entity at hl
+        repeat' split at hl
+        all_goals (simp at hl)
+        exact escape_head_ne_gt rest t hl.2
+
 theorem escape_no_cdata_end (l : List Nat) : hasPrefix [0x5D, 0x3E] (escape l) = false := by
   cases hl : escape l with
-  | nil => simp [hasPrefix]
+  | nil => rfl
   | cons a t =>
     cases t with
     | nil => simp [hasPrefix]
     | cons b t =>
       simp only [hasPrefix, Bool.and_true]
-      cases ha : (a == 0x5D) with
-      | false => simp
+      cases hab : ((0x5D : Nat) == a && (0x3E : Nat) == b) with
+      | false => rfl
       | true =>
-        simp only [Bool.true_and, beq_eq_false_iff_ne, ne_eq]
-        intro hb
-        subst hb
-        have ha' : a = 0x5D := by simpa using ha
-        subst ha'
-        -- the first piece is the single character `]`, the rest is again an exporter output
-        cases l with
-        | nil => simp [escape, escapeWith] at hl
-        | cons c rest =>
-          unfold escape at hl
-          rw [escapeWith, piece] at hl
-          by_cases hc : isCtl c = true
-          · simp [hc, xEsc] at hl
-          · have hc' : isCtl c = false := by simpa using hc
-            by_cases hp : (c == 0x5F && startsPatFix (c :: rest)) = true
-            · simp [hc', hp, escUnderscore] at hl
-            · have hp' := Bool.eq_false_iff.mpr hp
-              simp only [hc', hp', Bool.false_eq_true, if_false] at hl
-              unfold entity at hl
-              repeat' split at hl
-              all_goals (simp at hl)
-              exact escape_head_ne_gt rest t hl.2
+        exfalso
+        simp only [Bool.and_eq_true, beq_iff_eq] at hab
+        obtain ⟨h1, h2⟩ := hab
+        subst h1; subst h2
+        exact escape_ne_cdata_end l t hl
 
 theorem xmlText_escape (s : List Nat) : xmlText (escape s) = some (xLayer s) := by
   unfold xmlText escape
@@ -224,7 +226,9 @@ theorem xmlText_escape (s : List Nat) : xmlText (escape s) = some (xLayer s) := 
         rw [escUnderscore_eq, xml_plain_list _ _ (plain_xEsc _), ih]; simp
       · have hp' := Bool.eq_false_iff.mpr hp
         simp only [hp', Bool.false_eq_true, if_false]
-        rw [xml_entity c _ hc' (escape_no_cdata_end rest), ih]; simp
+        have hnc := escape_no_cdata_end rest
+        unfold escape at hnc
+        rw [xml_entity c _ hc' hnc, ih]; simp
 
 /-! ### step 2: `decode_xlsx_escapes` undoes the `_xHHHH_` layer -/
 
